@@ -356,15 +356,18 @@ impl<'a, F: IVP> SolOut for DefaultSolOut<'a, F> {
         // Output Sampling
         // ============================================================================
         
+        // Times are compared up to rounding: the tolerance scales with the magnitude of the times of this step
+        let tol = self.tol * xold.abs().max(x.abs());
+
         if let Some(t_eval) = self.t_eval.as_ref() {
             // Mode 1: User-specified output times
             // Interpolate solution at each requested time within the current step interval.
             
             let mut i = self.next_idx;
             
-            if (xold - *x).abs() <= self.tol {
+            if xold == *x {
                 // Initial callback (xold == x): output at matching t_eval points
-                while i < t_eval.len() && (t_eval[i] - *x).abs() <= self.tol {
+                while i < t_eval.len() && (t_eval[i] - *x).abs() <= tol {
                     self.t.push(t_eval[i]);
                     self.y.push(y.to_vec());
                     i += 1;
@@ -376,8 +379,8 @@ impl<'a, F: IVP> SolOut for DefaultSolOut<'a, F> {
                 
                 if forward {
                     // Forward integration: t_eval[i] in (xold, x]
-                    while i < t_eval.len() && t_eval[i] <= *x + self.tol {
-                        if t_eval[i] >= xold - self.tol {
+                    while i < t_eval.len() && t_eval[i] <= *x + tol {
+                        if t_eval[i] >= xold - tol {
                             let mut yi = vec![0.0; y.len()];
                             interpolant.unwrap().interpolate(t_eval[i], &mut yi);
                             self.t.push(t_eval[i]);
@@ -387,8 +390,8 @@ impl<'a, F: IVP> SolOut for DefaultSolOut<'a, F> {
                     }
                 } else {
                     // Backward integration: t_eval is sorted decreasing, t_eval[i] in [x, xold)
-                    while i < t_eval.len() && t_eval[i] >= *x - self.tol {
-                        if t_eval[i] <= xold + self.tol {
+                    while i < t_eval.len() && t_eval[i] >= *x - tol {
+                        if t_eval[i] <= xold + tol {
                             let mut yi = vec![0.0; y.len()];
                             interpolant.unwrap().interpolate(t_eval[i], &mut yi);
                             self.t.push(t_eval[i]);
@@ -407,12 +410,12 @@ impl<'a, F: IVP> SolOut for DefaultSolOut<'a, F> {
             if let Some(h0) = self.first_step {
                 // First-step enforcement: skip intermediate outputs until we reach/pass
                 // the target, then interpolate to the exact point.
-                if !self.first_output_done && (xold - *x).abs() > self.tol {
+                if !self.first_output_done && xold != *x {
                     let direction = (*x - xold).signum();
                     // For backward integration (direction < 0), target is x0 - h0
                     let target = self.x0 + direction * h0;
                     
-                    if direction * (*x - target) >= -self.tol {
+                    if direction * (*x - target) >= -tol {
                         // We've reached or passed the target point
                         if let Some(interp) = interpolant {
                             let mut yi = vec![0.0; y.len()];
@@ -423,7 +426,7 @@ impl<'a, F: IVP> SolOut for DefaultSolOut<'a, F> {
                         }
                         
                         // Also output current endpoint if distinct from target
-                        if (*x - target).abs() > self.tol {
+                        if (*x - target).abs() > tol {
                             self.t.push(*x);
                             self.y.push(y.to_vec());
                         }
